@@ -227,7 +227,8 @@ def check(spec, tier, seed, only_replay=None):
                                                       sum((['--opt', '%s=%s' % kv] for kv in stage.opts.items()), []))
                     kf = None
                     for f_ in known:
-                        if re.search(f_['sig_regex'], sig):
+                        if re.search(f_['sig_regex'], sig) and (
+                                'match_detail' not in f_ or re.search(f_['match_detail'], fail.get('detail', '') + fail.get('case', ''))):
                             kf = f_
                             break
                     if verdict == 'FAIL' and kf is None:
